@@ -303,6 +303,9 @@ class OwnerLock:
         return self._l.locked()
 
 
+LOCKSET_COUNT = [0]
+
+
 def make_lockset_coordinator(violations):
     from s3transfer.futures import TransferCoordinator
 
@@ -316,6 +319,7 @@ def make_lockset_coordinator(violations):
 
         def __setattr__(self, name, value):
             if self._vf_ready and name in ('_status', '_exception', '_result'):
+                LOCKSET_COUNT[0] += 1
                 lk = self.__dict__.get('_lock')
                 if isinstance(lk, OwnerLock) and lk.owner != threading.get_ident():
                     violations.append((name, threading.current_thread().name))
@@ -448,14 +452,16 @@ def threaded_case(case):
         viol.append(V(f'TransferCoordinator: {lock_viol[0][0]} written by {lock_viol[0][1]} without holding the coordinator lock '
                       f'({len(lock_viol)} writes)', cls='TransferCoordinator', sym='lockset'))
     return {'verdict': 'violated' if viol else 'held', 'key': f'thr-{case["threads"]}', 'violations': viol,
-            'stats': {'thr_runs': runs, 'thr_model_outcomes': len(outcomes), 'thr_distinct_finals': len(seen_finals), 'yield_events': inj.events},
+            'stats': {'thr_runs': runs, 'thr_model_outcomes': len(outcomes), 'thr_distinct_finals': len(seen_finals), 'yield_events': inj.events,
+                      'lockset_writes_checked': LOCKSET_COUNT[0]},
             'summary': {'threads': case['threads'], 'finals_seen': sorted(map(repr, seen_finals))[:4]}}
 
 
 # ---------------------------------------------------------------------- e2e
 def e2e_eval(obs):
     viol = []
-    stats = {'e2e_checks': 0, 'lockset_writes_checked': getattr(obs, 'lockset_writes', 0)}
+    stats = {'e2e_checks': 0, 'lockset_writes_checked': LOCKSET_COUNT[0]}
+    LOCKSET_COUNT[0] = 0
     for x in obs.xfers:
         if x.future is None or x.outcome is None:
             continue
